@@ -212,6 +212,26 @@ def gen_factory(tier):
                        op_run(guarded("hex(p, q)", "r0")), op_run(guarded("hex(p)", "r1")), op_run(guarded("hex(p + 0, q + 0)", "r2")), op_dump()]
                 yield Case("h%d" % n, ops, {"kind": "hexw", "v": v, "w": w})
                 n += 1
+        # G9: operand provenance: the same call with the string argument taken from a variable (decided by the models above), from a
+        # temporary, from a function result, from a table element and from a constant must give the same value
+        import re as _re
+        PROV_E = [e for e in UNARY_S + POS_S + TERN_S if "x" in e]
+        FORMS = ['(x + "")', "fid(x)", "sv.at(0)", "str(x)", "lsubstr(x, 99)", "upper(lower(x))"]
+        for x in strings([0x20, 0x61, 0x62, 0x2c, 0x09], 3 if thorough else 2):
+            for y, z, p in ((b"a", b"#", 1), (b",", b"", 0), (b" ", b"  ", 2)):
+                ops = [op_ctx(), op_setvar("X", sspec(x)), op_setvar("Y", sspec(y)), op_setvar("Z", sspec(z)), op_setvar("P", ispec(p)),
+                       op_run("function fid(a) return string is begin return a; end; sv = tab(1, x);")]
+                names = []
+                for k, e in enumerate(PROV_E):
+                    ops.append(op_run(guarded(e, "ra%d" % k)))
+                    for j, f in enumerate(FORMS):
+                        if f == "upper(lower(x))" and x.lower().upper() != x:
+                            continue
+                        ops.append(op_run(guarded(_re.sub(r"\bx\b", f, e), "rb%d_%d" % (k, j))))
+                        names.append((k, j))
+                ops.append(op_dump())
+                yield Case("v%d" % n, ops, {"kind": "prov", "x": x.hex(), "y": y.hex(), "z": z.hex(), "p": p, "names": names})
+                n += 1
     return gen
 
 
@@ -285,6 +305,16 @@ def check(case, res):
             if s.get("r") not in ("ok", "rerr"):
                 bad("not-total:" + e.split("(")[0], "%s -> %s" % (e, s))
 
+    if kind == "prov":
+        unchanged("X", sspec(unhex(m["x"])))
+        exprs = [e for e in UNARY_S + POS_S + TERN_S if "x" in e]
+        forms = ['(x + "")', "fid(x)", "sv.at(0)", "str(x)", "lsubstr(x, 99)", "upper(lower(x))"]
+        for k, j in m["names"]:
+            a, b = dump.get("RA%d" % k), dump.get("RB%d_%d" % (k, j))
+            if a is None or a != b:
+                bad("provenance:%s:%s" % (exprs[k].split("(")[0], forms[j].replace("x", "_")),
+                    "%s gives %r with a variable and %r with %s" % (exprs[k], a, b, forms[j]))
+        return vs, True
     if kind == "unary":
         x = unhex(m["x"])
         total(2, UNARY_S)
